@@ -3,6 +3,7 @@
    float operations are spelled out in Proofs/StatsProofs.v (the ..._stmt definitions). *)
 From Coq Require Import List ZArith Bool.
 From SR Require Import Base.ListCount Model.Stats Proofs.StatsProofs.
+From SR Require Proofs.FormulasStatsProofs.
 Import ListNotations.
 Open Scope Z_scope.
 
@@ -65,6 +66,14 @@ Print Assumptions C06_status_counts.
 Theorem C06_derived_floor_at_zero : derived_floor_stmt.
 Proof. exact derived_floor_holds. Qed.
 Print Assumptions C06_derived_floor_at_zero.
+
+(* The translator tie: PropMap.Modify (which properties combine multiplicatively, and how), statCalc
+   and the derived ATK / MaxHP the model reads are EQUAL, at binary64, to the definitions go2coq
+   generates from info/map.go and info/stats.go (Gen/FormulasInfo.v; the conjunction is spelled
+   out in Proofs/FormulasStatsProofs.v, C06_formulas_statement). *)
+Theorem C06_model_formulas_are_the_source : FormulasStatsProofs.C06_formulas_statement.
+Proof. exact FormulasStatsProofs.C06_formulas_hold. Qed.
+Print Assumptions C06_model_formulas_are_the_source.
 
 (* the code before the repair violated the property (witness: corpus/C06/stats/*.json); the
    same history on the repaired model leaves the other unit alone and changes the addressed
